@@ -39,7 +39,13 @@ type cmdFlag struct {
 	pos         token.Pos
 }
 
+type cmdNoOpt struct {
+	flag string
+	pos  token.Pos
+}
+
 type cmdNode struct {
+	noOpt  []cmdNoOpt // flags given a NoOptDefVal in init()
 	use    string
 	obj    *types.Var
 	runE   *ast.FuncLit
@@ -145,6 +151,27 @@ func cmdTree(c *core.Ctx) (map[string]*cmdNode, error) {
 	var problems []string
 	for _, file := range p.Syntax {
 		ast.Inspect(file, func(n ast.Node) bool {
+			if as, isAssign := n.(*ast.AssignStmt); isAssign && len(as.Lhs) == 1 {
+				// X.Flags().Lookup("name").NoOptDefVal = "..."
+				if sel, ok := unparenExpr(as.Lhs[0]).(*ast.SelectorExpr); ok && sel.Sel.Name == "NoOptDefVal" {
+					if lk, ok := unparenExpr(sel.X).(*ast.CallExpr); ok {
+						if lfn, _ := typeutil.Callee(info, lk).(*types.Func); lfn != nil && lfn.FullName() == pflagSet+"Lookup" && len(lk.Args) == 1 {
+							if lsel, ok := unparenExpr(lk.Fun).(*ast.SelectorExpr); ok {
+								if inner, ok := unparenExpr(lsel.X).(*ast.CallExpr); ok {
+									if isel, ok := unparenExpr(inner.Fun).(*ast.SelectorExpr); ok {
+										if owner := cmdOf(isel.X); owner != nil {
+											if tv, ok := info.Types[lk.Args[0]]; ok && tv.Value != nil && tv.Value.Kind() == constant.String {
+												owner.noOpt = append(owner.noOpt, cmdNoOpt{constant.StringVal(tv.Value), as.Pos()})
+											}
+										}
+									}
+								}
+							}
+						}
+					}
+				}
+				return true
+			}
 			call, ok := n.(*ast.CallExpr)
 			if !ok {
 				return true
@@ -980,6 +1007,21 @@ func checkCmdContract(c *core.Ctx, rule string, paths ...string) {
 		if node.runE == nil {
 			c.Und(key, node.pos, "command %q has no RunE function literal", spec.path)
 			continue
+		}
+		// a flag with a no-option default does not consume the next word: only booleans may have one,
+		// otherwise `--threshold 0.6` silently becomes the default plus a stray argument
+		{
+			var badNo []string
+			kinds := map[string]string{}
+			for _, f := range node.visible() {
+				kinds[f.name] = f.kind
+			}
+			for _, no := range node.noOpt {
+				if kinds[no.flag] != "bool" {
+					badNo = append(badNo, fmt.Sprintf("%s: --%s (%s) is given a NoOptDefVal: `--%s VALUE` would no longer take VALUE", c.PosStr(no.pos), no.flag, kinds[no.flag], no.flag))
+				}
+			}
+			c.Ob(key+"/value-flags-take-their-value", len(badNo) == 0, node.pos, "%s", first(badNo, 3))
 		}
 		var badArgs, badErr, badEntryErr, undecided []string
 		for _, sc := range scenariosFor(node, spec) {
